@@ -536,6 +536,11 @@ func Pow(y tensor.Tensor, x tensor.Tensor, a float64) (gctx *GradContext) {
 			{
 				target: x,
 				gradFn: func() (tensor.Tensor, error) {
+					// x^0 is constant: its derivative is zero everywhere, also at x = 0 where x^(a-1) is not finite
+					if a == 0 {
+						return toZeros(x), nil
+					}
+
 					gy := y.Gradient()
 					gx := x.Pow(a - 1)
 					gx = gx.Scale(a)
